@@ -121,50 +121,18 @@ theorem de_option_NR' {t t' : Id} {ed : List String} {im : List Impl} {f : Nat} 
     cases j <;> first | (simp [NR]; done) | exact hsub
   · exact de_option_NR x σ hg (fun t'' ed' im' hc => hopt ⟨t'', ed', im', hc⟩) hsub
 
-theorem struct_accepts {rec : Schema → Id → Bool} {n m : Nat} (hm : m < n) (hrec : Hrec x vx σ d rec n)
-    {props : List (String × Schema)} {req : List String} {addl : Additional Schema}
-    {fields : List Field} {deny : Bool} {kvs : List (String × Json)}
-    (hb : structB rec σ props req addl fields deny = true)
-    (hv : valid vx d (m + 1) (.object props req addl) (.obj kvs) = some true) :
-    ∀ fd, NR (deStruct x σ fd fields deny (.obj kvs)) := by
-  intro fd
-  cases fd with
-  | zero => simp [deStruct, NR]
-  | succ f =>
-    simp only [structB, Bool.and_eq_true, Bool.not_eq_true'] at hb
-    obtain ⟨⟨⟨⟨hfl, hnd⟩, haddl⟩, hall⟩, hprops⟩ := hb
-    simp only [valid] at hv
-    obtain ⟨hreq, hmem⟩ := and3_true hv
-    simp only [Option.some.injEq] at hreq
-    have hmem' := membersV_spec hmem
-    simp only [deStruct, hfl, Bool.false_eq_true, if_false]
-    -- the closed-object check cannot fire
-    have hdeny : (deny && kvs.any (fun kv => !(fields.any (fun p => p.wire == kv.1)))) = false := by
-      cases deny with
-      | false => rfl
-      | true =>
-        simp only [Bool.true_and]
-        apply Bool.eq_false_iff.mpr
-        intro hany
-        obtain ⟨kv, hkv, hk⟩ := List.any_eq_true.mp hany
-        have hclosed : addl = .closed := by
-          cases addl with
-          | open_ => simp at haddl
-          | closed => rfl
-          | schema s' => simp at haddl
-        rcases hmem' kv hkv with ⟨q, hq, _⟩ | ⟨_, hno⟩
-        · obtain ⟨hqk, hqm⟩ := find_key_eq hq
-          obtain ⟨p, hp, _⟩ := propsB_mem hprops q hqm
-          have hpm := List.mem_of_find?_eq_some hp
-          have hpw : p.wire = q.1 := by simpa using List.find?_some hp
-          simp only [Bool.not_eq_true', List.any_eq_false] at hk
-          have := hk p hpm
-          simp [hpw, hqk] at this
-        · rw [hclosed] at hno; exact hno rfl
-    rw [hdeny]
-    simp only [Bool.false_eq_true, if_false]
-    -- no member rejects
-    have hfield : ∀ p ∈ fields, NR (
+/-- the step that reads one named member of a valid object does not reject -/
+theorem member_NR {rec : Schema → Id → Bool} {n m : Nat} (hm : m < n) (hrec : Hrec x vx σ d rec n)
+    {props : List (String × Schema)} {req : List String}
+    {named : List Field} {kvs : List (String × Json)}
+    (hnd : nodupB (named.map (·.wire)) = true)
+    (hall : named.all (fun p => props.any (fun q => q.1 == p.wire)) = true)
+    (hprops : propsB rec σ named req props = true)
+    (hreq : req.all (fun r => (Json.lookup kvs r).isSome) = true)
+    (hmem' : ∀ kv ∈ kvs,
+      (∃ q, props.find? (fun p => p.1 == kv.1) = some q ∧ valid vx d m q.2 kv.2 = some true) ∨
+      props.find? (fun p => p.1 == kv.1) = none)
+    (f : Nat) : ∀ p ∈ named, NR (
         match Json.lookup kvs p.wire with
         | some v => (match de x σ f p.ty v with | .ok a => .ok (p.name, a) | .error e => .error e)
         | none =>
@@ -175,111 +143,284 @@ theorem struct_accepts {rec : Schema → Id → Bool} {n m : Nat} (hm : m < n) (
               | .ok a => .ok (p.name, a)
               | .error .reject => .error .unsupported
               | .error e => .error e) : Except E (String × Val)) := by
-      intro p hp
-      -- the property this member stands for
-      have hpall := (List.all_eq_true.mp hall) p hp
-      obtain ⟨q, hqm, hqk⟩ := List.any_eq_true.mp hpall
-      have hqk' : q.1 = p.wire := by simpa using hqk
-      obtain ⟨p', hp', hcond⟩ := propsB_mem hprops q hqm
-      have hpp : p' = p := by
-        have := nodupB_find hnd p hp
-        rw [hqk'] at hp'
-        rw [this] at hp'
-        exact (Option.some.inj hp').symm
-      subst hpp
-      cases hl : Json.lookup kvs p'.wire with
-      | some j =>
+  intro p hp
+  -- the property this member stands for
+  have hpall := (List.all_eq_true.mp hall) p hp
+  obtain ⟨q, hqm, hqk⟩ := List.any_eq_true.mp hpall
+  have hqk' : q.1 = p.wire := by simpa using hqk
+  obtain ⟨p', hp', hcond⟩ := propsB_mem hprops q hqm
+  have hpp : p' = p := by
+    have := nodupB_find hnd p hp
+    rw [hqk'] at hp'
+    rw [this] at hp'
+    exact (Option.some.inj hp').symm
+  subst hpp
+  cases hl : Json.lookup kvs p'.wire with
+  | some j =>
+    simp only
+    -- j is valid under the first property with this key
+    have hjmem : (p'.wire, j) ∈ kvs := by
+      clear hmem' hreq
+      induction kvs with
+      | nil => simp [Json.lookup] at hl
+      | cons a r ih =>
+        obtain ⟨k', v'⟩ := a
+        simp only [Json.lookup] at hl
+        split at hl
+        · rename_i hk; simp only [Option.some.injEq] at hl; subst hl; subst hk; simp
+        · simp [ih hl]
+    rcases hmem' (p'.wire, j) hjmem with ⟨q1, hq1, hvalid⟩ | hnone
+    · obtain ⟨hq1k, hq1m⟩ := find_key_eq hq1
+      obtain ⟨p1, hp1, hcond1⟩ := propsB_mem hprops q1 hq1m
+      have hp1p : p1 = p' := by
+        have := nodupB_find hnd p' hp
+        simp only at hq1k
+        rw [hq1k] at hp1
+        rw [this] at hp1
+        exact (Option.some.inj hp1).symm
+      subst hp1p
+      simp only at hvalid
+      have hde : NR (de x σ f p1.ty j) := by
+        by_cases hr : req.contains q1.1 = true
+        · simp only [hr, if_true] at hcond1
+          exact hrec m hm q1.2 p1.ty j hcond1 hvalid f
+        · simp only [hr, Bool.false_eq_true, if_false] at hcond1
+          rcases hcond1.2 with hdir | ⟨t', ed, im, hg, hno, hopt⟩
+          · exact hrec m hm q1.2 p1.ty j hdir hvalid f
+          · cases f with
+            | zero => simp [de, NR]
+            | succ f' =>
+              exact de_option_NR x σ hg hno (hrec m hm q1.2 t' j hopt hvalid f')
+      cases hd : de x σ f p1.ty j with
+      | ok a => simp [NR]
+      | error e =>
+        simp only; intro hc; simp only [Except.error.injEq] at hc; subst hc
+        rw [hd] at hde; exact hde rfl
+    · simp only at hnone
+      have : props.find? (fun p => p.1 == p'.wire) ≠ none := by
+        intro hc
+        have := List.find?_eq_none.mp hc q hqm
+        simp [hqk'] at this
+      exact absurd hnone this
+  | none =>
+    simp only
+    cases hst : p'.state with
+    | required =>
+      simp only
+      have hnotreq : req.contains q.1 = false := by
+        apply Bool.eq_false_iff.mpr
+        intro hc
+        have := (List.all_eq_true.mp hreq) q.1 (by simpa using hc)
+        rw [hqk', hl] at this
+        simp at this
+      simp only [hnotreq, Bool.false_eq_true, if_false] at hcond
+      have h1 := hcond.1
+      simp only [hasDefaultAttr, hst, Bool.false_or] at h1
+      simp [h1, NR]
+    | optional =>
+      simp only
+      cases hd : dflt x σ f p'.ty with
+      | ok a => simp [NR]
+      | error e =>
         simp only
-        -- j is valid under the first property with this key
-        have hjmem : (p'.wire, j) ∈ kvs := by
-          clear hmem hmem' hdeny hreq hv
-          induction kvs with
-          | nil => simp [Json.lookup] at hl
-          | cons a r ih =>
-            obtain ⟨k', v'⟩ := a
-            simp only [Json.lookup] at hl
-            split at hl
-            · rename_i hk; simp only [Option.some.injEq] at hl; subst hl; subst hk; simp
-            · simp [ih hl]
-        rcases hmem' (p'.wire, j) hjmem with ⟨q1, hq1, hvalid⟩ | ⟨hnone, _⟩
-        · obtain ⟨hq1k, hq1m⟩ := find_key_eq hq1
-          obtain ⟨p1, hp1, hcond1⟩ := propsB_mem hprops q1 hq1m
-          have hp1p : p1 = p' := by
-            have := nodupB_find hnd p' hp
-            simp only at hq1k
-            rw [hq1k] at hp1
-            rw [this] at hp1
-            exact (Option.some.inj hp1).symm
-          subst hp1p
-          simp only at hvalid
-          have hde : NR (de x σ f p1.ty j) := by
-            by_cases hr : req.contains q1.1 = true
-            · simp only [hr, if_true] at hcond1
-              exact hrec m hm q1.2 p1.ty j hcond1 hvalid f
-            · simp only [hr, Bool.false_eq_true, if_false] at hcond1
-              rcases hcond1.2 with hdir | ⟨t', ed, im, hg, hno, hopt⟩
-              · exact hrec m hm q1.2 p1.ty j hdir hvalid f
-              · cases f with
-                | zero => simp [de, NR]
-                | succ f' =>
-                  exact de_option_NR x σ hg hno (hrec m hm q1.2 t' j hopt hvalid f')
-          cases hd : de x σ f p1.ty j with
-          | ok a => simp [NR]
-          | error e =>
-            simp only; intro hc; simp only [Except.error.injEq] at hc; subst hc
-            rw [hd] at hde; exact hde rfl
-        · simp only at hnone
-          have : props.find? (fun p => p.1 == p'.wire) ≠ none := by
-            intro hc
-            have := List.find?_eq_none.mp hc q hqm
-            simp [hqk'] at this
-          exact absurd hnone this
-      | none =>
-        simp only
-        cases hst : p'.state with
-        | required =>
-          simp only
-          have hnotreq : req.contains q.1 = false := by
-            apply Bool.eq_false_iff.mpr
-            intro hc
-            have := (List.all_eq_true.mp hreq) q.1 (by simpa using hc)
-            rw [hqk', hl] at this
-            simp at this
-          simp only [hnotreq, Bool.false_eq_true, if_false] at hcond
-          have h1 := hcond.1
-          simp only [hasDefaultAttr, hst, Bool.false_or] at h1
-          simp [h1, NR]
-        | optional =>
-          simp only
-          cases hd : dflt x σ f p'.ty with
-          | ok a => simp [NR]
-          | error e =>
-            simp only
-            intro hc; simp only [Except.error.injEq] at hc; subst hc
-            -- `dflt` never rejects
-            exact absurd hd (dflt_ne_reject x σ f p'.ty)
-        | dflt dj =>
-          simp only
-          cases hd : de x σ f p'.ty dj with
-          | ok a => simp [NR]
-          | error e => cases e <;> simp [NR]
-    have := mapM'_NR (g := fun (p : Field) =>
-        match Json.lookup kvs p.wire with
-        | some v => (match de x σ f p.ty v with | .ok a => .ok (p.name, a) | .error e => .error e)
-        | none =>
-          match p.state with
-          | .required => if optionLikeT σ p.ty then .ok (p.name, Val.none) else .error .reject
-          | .optional => (match dflt x σ f p.ty with | .ok a => .ok (p.name, a) | .error e => .error e)
-          | .dflt dj => (match de x σ f p.ty dj with
-              | .ok a => .ok (p.name, a)
-              | .error .reject => .error .unsupported
-              | .error e => .error e)) hfield
-    revert this
-    generalize mapM' _ fields = r
-    intro hr
+        intro hc; simp only [Except.error.injEq] at hc; subst hc
+        -- `dflt` never rejects
+        exact absurd hd (dflt_ne_reject x σ f p'.ty)
+    | dflt dj =>
+      simp only
+      cases hd : de x σ f p'.ty dj with
+      | ok a => simp [NR]
+      | error e => cases e <;> simp [NR]
+
+/-- a map with plain string keys does not reject an object whose member values are valid under the schema its value type
+    stands for -/
+theorem map_entries_NR {rec : Schema → Id → Bool} {n m : Nat} (hm : m < n) (hrec : Hrec x vx σ d rec n)
+    {t k vt : Id} {ed : List String} {im : List Impl} (hget : σ.get t = some ⟨.map k vt, ed, im⟩)
+    {edk : List String} {imk : List Impl} (hgk : σ.get k = some ⟨.string, edk, imk⟩)
+    {sa : Schema} (hsa : rec sa vt = true) {c : List (String × Json)}
+    (hc : ∀ kv ∈ c, valid vx d m sa kv.2 = some true) : ∀ fd, NR (de x σ fd t (.obj c)) := by
+  intro fd
+  cases fd with
+  | zero => simp [de, NR]
+  | succ f =>
+    simp only [de, hget]
+    have : NR (mapM' (fun (kv : String × Json) =>
+        match de x σ f k (.str kv.1), de x σ f vt kv.2 with
+        | .ok (.str _), .ok b => (.ok (kv.1, b) : Except E (String × Val))
+        | .ok (.variant _ _), .ok b => .ok (kv.1, b)
+        | .ok _, .ok _ => .error .unsupported
+        | .error e, _ => .error e
+        | _, .error e => .error e) c) := by
+      apply mapM'_NR
+      intro kv hkv
+      have hval : NR (de x σ f vt kv.2) := hrec m hm sa vt kv.2 hsa (hc kv hkv) f
+      cases f with
+      | zero => simp [de, NR]
+      | succ f' =>
+        have hkey : de x σ (f' + 1) k (.str kv.1) = .ok (.str kv.1) := by simp [de, hgk]
+        rw [hkey]
+        revert hval; generalize de x σ (f' + 1) vt kv.2 = r; intro hr
+        cases r with
+        | ok b => simp [NR]
+        | error e => simp only; intro hc'; simp only [Except.error.injEq] at hc'; subst hc'; exact hr rfl
+    revert this; generalize mapM' _ c = r; intro hr
     cases r with
-    | ok fs => simp [NR]
-    | error e =>
-      simp only; intro hc; simp only [Except.error.injEq] at hc; subst hc; exact hr rfl
+    | ok es => simp [NR]
+    | error e => simp only; intro hc'; simp only [Except.error.injEq] at hc'; subst hc'; exact hr rfl
+
+theorem struct_accepts {rec : Schema → Id → Bool} {n m : Nat} (hm : m < n) (hrec : Hrec x vx σ d rec n)
+    {props : List (String × Schema)} {req : List String} {addl : Additional Schema}
+    {fields : List Field} {deny : Bool} {kvs : List (String × Json)}
+    (hb : structB rec σ props req addl fields deny = true)
+    (hv : valid vx d (m + 1) (.object props req addl) (.obj kvs) = some true) :
+    ∀ fd, NR (deStruct x σ fd fields deny (.obj kvs)) := by
+  intro fd
+  cases fd with
+  | zero => simp [deStruct, NR]
+  | succ f =>
+    simp only [valid] at hv
+    obtain ⟨hreq, hmem⟩ := and3_true hv
+    simp only [Option.some.injEq] at hreq
+    have hmem' := membersV_spec hmem
+    simp only [structB, Bool.or_eq_true] at hb
+    rcases hb with hb | hb
+    · -- no flattened member
+      simp only [structPlainB, Bool.and_eq_true, Bool.not_eq_true'] at hb
+      obtain ⟨⟨⟨⟨hfl, hnd⟩, haddl⟩, hall⟩, hprops⟩ := hb
+      simp only [deStruct, hfl, Bool.false_eq_true, if_false]
+      -- the closed-object check cannot fire
+      have hdeny : (deny && kvs.any (fun kv => !(fields.any (fun p => p.wire == kv.1)))) = false := by
+        cases deny with
+        | false => rfl
+        | true =>
+          simp only [Bool.true_and]
+          apply Bool.eq_false_iff.mpr
+          intro hany
+          obtain ⟨kv, hkv, hk⟩ := List.any_eq_true.mp hany
+          have hclosed : addl = .closed := by
+            cases addl with
+            | open_ => simp at haddl
+            | closed => rfl
+            | schema s' => simp at haddl
+          rcases hmem' kv hkv with ⟨q, hq, _⟩ | ⟨_, hno⟩
+          · obtain ⟨hqk, hqm⟩ := find_key_eq hq
+            obtain ⟨p, hp, _⟩ := propsB_mem hprops q hqm
+            have hpm := List.mem_of_find?_eq_some hp
+            have hpw : p.wire = q.1 := by simpa using List.find?_some hp
+            simp only [Bool.not_eq_true', List.any_eq_false] at hk
+            have := hk p hpm
+            simp [hpw, hqk] at this
+          · rw [hclosed] at hno; exact hno rfl
+      rw [hdeny]
+      simp only [Bool.false_eq_true, if_false]
+      have hfield := member_NR x vx σ d hm hrec hnd hall hprops hreq (fun kv hkv => (hmem' kv hkv).imp id (·.1)) f
+      have := mapM'_NR (g := fun (p : Field) =>
+          match Json.lookup kvs p.wire with
+          | some v => (match de x σ f p.ty v with | .ok a => .ok (p.name, a) | .error e => .error e)
+          | none =>
+            match p.state with
+            | .required => if optionLikeT σ p.ty then .ok (p.name, Val.none) else .error .reject
+            | .optional => (match dflt x σ f p.ty with | .ok a => .ok (p.name, a) | .error e => .error e)
+            | .dflt dj => (match de x σ f p.ty dj with
+                | .ok a => .ok (p.name, a)
+                | .error .reject => .error .unsupported
+                | .error e => .error e)) hfield
+      revert this
+      generalize mapM' _ fields = r
+      intro hr
+      cases r with
+      | ok fs => simp [NR]
+      | error e =>
+        simp only; intro hc; simp only [Except.error.injEq] at hc; subst hc; exact hr rfl
+    · -- `additionalProperties: <schema>`: named members plus one flattened map
+      simp only [structFlatB, Bool.and_eq_true] at hb
+      obtain ⟨⟨⟨haddl, hnd⟩, hall⟩, hprops⟩ := hb
+      cases addl with
+      | open_ => simp at haddl
+      | closed => simp at haddl
+      | schema sa =>
+        simp only [Bool.and_eq_true, Bool.not_eq_true'] at haddl
+        obtain ⟨hdn, hflat⟩ := haddl
+        subst hdn
+        split at hflat
+        · rename_i e hfe
+          split at hflat
+          · rename_i k vt ed' im' hge
+            simp only [Bool.and_eq_true] at hflat
+            obtain ⟨hk, hsa⟩ := hflat
+            split at hk
+            · rename_i edk imk hgk
+              have hemem : e ∈ fields.filter (fun p => p.rename == .flatten) := by rw [hfe]; simp
+              have hefl : hasFlatten fields = true := by
+                simp only [List.mem_filter] at hemem
+                exact List.any_eq_true.mpr ⟨e, hemem.1, hemem.2⟩
+              simp only [deStruct, hefl, if_true]
+              have hmemS := membersV_spec_schema hmem
+              -- every buffered entry is an additional member, valid under the additional schema
+              have hinv : ∀ kv ∈ bufferOf fields kvs, valid vx d m sa kv.2 = some true := by
+                intro kv hkv
+                simp only [bufferOf, List.mem_filter, Bool.not_eq_true', List.any_eq_false, Bool.and_eq_true,
+                  bne_iff_ne, ne_eq, beq_iff_eq, not_and] at hkv
+                obtain ⟨hkvm, hnot⟩ := hkv
+                rcases hmemS kv hkvm with ⟨q, hq, _⟩ | ⟨_, hva⟩
+                · exfalso
+                  obtain ⟨hqk, hqm⟩ := find_key_eq hq
+                  obtain ⟨p, hp, _⟩ := propsB_mem hprops q hqm
+                  have hpm := List.mem_of_find?_eq_some hp
+                  have hpw : p.wire = q.1 := by simpa using List.find?_some hp
+                  simp only [namedOf, List.mem_filter, bne_iff_ne, ne_eq] at hpm
+                  exact hnot p hpm.1 hpm.2 (by rw [hpw, hqk])
+                · exact hva
+              have hnamed : ∀ p ∈ fields, p.rename ≠ .flatten → NR (
+                  match Json.lookup kvs p.wire with
+                  | some v => (match de x σ f p.ty v with | .ok a => .ok (p.name, a) | .error e => .error e)
+                  | none =>
+                    match p.state with
+                    | .required => if optionLikeT σ p.ty then .ok (p.name, Val.none) else .error .reject
+                    | .optional => (match dflt x σ f p.ty with | .ok a => .ok (p.name, a) | .error e => .error e)
+                    | .dflt dj => (match de x σ f p.ty dj with
+                        | .ok a => .ok (p.name, a)
+                        | .error .reject => .error .unsupported
+                        | .error e => .error e) : Except E (String × Val)) := by
+                intro p hp hpf
+                exact member_NR x vx σ d hm hrec hnd hall hprops hreq (fun kv hkv => (hmem' kv hkv).imp id (·.1)) f p
+                  (by simp only [namedOf, List.mem_filter, bne_iff_ne, ne_eq]; exact ⟨hp, hpf⟩)
+              have hfold := foldFields_NR_inv
+                (named := fun (p : Field) =>
+                  match Json.lookup kvs p.wire with
+                  | some v => (match de x σ f p.ty v with | .ok a => .ok (p.name, a) | .error e => .error e)
+                  | none =>
+                    match p.state with
+                    | .required => if optionLikeT σ p.ty then .ok (p.name, Val.none) else .error .reject
+                    | .optional => (match dflt x σ f p.ty with | .ok a => .ok (p.name, a) | .error e => .error e)
+                    | .dflt dj => (match de x σ f p.ty dj with
+                        | .ok a => .ok (p.name, a)
+                        | .error .reject => .error .unsupported
+                        | .error e => .error e))
+                (flat := fun (p : Field) c => deFlat x σ f p.ty c)
+                (fun c => ∀ kv ∈ c, valid vx d m sa kv.2 = some true)
+                fields (bufferOf fields kvs) hinv hnamed
+                (by
+                  intro p hp hpf c' hc'
+                  have hpe : p = e := by
+                    have : p ∈ fields.filter (fun p => p.rename == .flatten) := by
+                      simp only [List.mem_filter]; exact ⟨hp, by simp [hpf]⟩
+                    rw [hfe] at this; simpa using this
+                  subst hpe
+                  cases f with
+                  | zero => exact ⟨by simp [deFlat, NR], by simpa [deFlat] using hc'⟩
+                  | succ f' =>
+                    simp only [deFlat, hge]
+                    exact ⟨map_entries_NR x vx σ d hm hrec hge hgk hsa hc' f', hc'⟩)
+              revert hfold
+              generalize foldFields _ _ fields (bufferOf fields kvs) = r
+              intro hfold
+              obtain ⟨r1, rest⟩ := r
+              cases r1 with
+              | error e' => simpa [NR] using hfold
+              | ok fs => simp [NR]
+            · simp at hk
+          · simp at hflat
+        · simp at hflat
 
 end TypifyModel.Conv
